@@ -393,13 +393,189 @@ let run_sk (body : string) : string =
    with Panic -> push "P" | Bad -> push "BAD-OP");
   String.concat " | " (L.rev !out)
 
+(* ---------- the tangle complex (Model/TngComplex.v) ---------- *)
+let key_str (k : tkey) : string =
+  String.concat "" (L.map (fun b -> if b then "1" else "0") k.kstate) ^ "/" ^
+  String.concat "" (L.map (fun b -> if b then "I" else "X") k.klabel)
+
+let parse_key (s : string) : tkey =
+  match String.index_opt s '/' with
+  | None -> raise Bad
+  | Some i ->
+      let a = String.sub s 0 i and b = String.sub s (i + 1) (String.length s - i - 1) in
+      let chars str = L.init (String.length str) (String.get str) in
+      if not (L.for_all (fun c -> c = '0' || c = '1') (chars a)) || not (L.for_all (fun c -> c = 'X' || c = 'I') (chars b))
+      then raise Bad;
+      if String.length a > 64 || String.length b > 64 then raise Panic;
+      { kstate = L.map (fun c -> c = '1') (chars a); klabel = L.map (fun c -> c = 'I') (chars b) }
+
+let sorted_verts (c : cpx) : vertex list =
+  L.sort (fun v w -> compare (key_str v.vkey) (key_str w.vkey)) c.c_verts
+
+let tc_str (c : cpx) : string =
+  let verts = L.map (fun v ->
+    let ins = L.sort compare (L.map key_str v.vin) in
+    let outs = L.sort compare (L.map (fun (l, f) -> (key_str l, lc_str f)) v.vout) in
+    Printf.sprintf "%s:[%s] in=%s out=%s" (key_str v.vkey) (tng_raw v.vtng) (String.concat "," ins)
+      (String.concat " ~ " (L.map (fun (l, f) -> l ^ ">" ^ f) outs))) (sorted_verts c) in
+  Printf.sprintf "dim=%s sh=%s,%s bp=%s nv=%d cd=%s val=%s dd=%s rk=%s :: %s" (string_of_nat (cpx_dim c))
+    (string_of_z (fst c.c_shift)) (string_of_z (snd c.c_shift))
+    (match c.c_base with Some e -> string_of_nat e | None -> "-") (L.length c.c_verts)
+    (string_of_bool01 (cpx_is_completely_delooped c))
+    (match cpx_validate c with Some true -> "1" | _ -> "0")
+    (if not (cpx_is_completely_delooped c) then "-" else match cpx_dd_check c with Some true -> "1" | Some false -> "0" | None -> "P")
+    (String.concat "," (L.map (fun i -> string_of_nat (cpx_rank c i)) (cpx_h_range c)))
+    (String.concat " ; " verts)
+
+let choose_loop (c : cpx) (allow_based : bool) : (tkey * nat) option =
+  let rec go = function
+    | [] -> None
+    | v :: r ->
+        (match tng_find_comp (fun m -> p_is_circle m && (allow_based || not (contains_base_pt c m))) v.vtng with
+         | Some i -> Some (v.vkey, i)
+         | None -> go r) in
+  go (sorted_verts c)
+
+let inv_edges (c : cpx) : (tkey * tkey) list =
+  let es = L.concat_map (fun v ->
+    L.filter_map (fun (l, f) -> if lc_is_invertible f then Some (key_str v.vkey, key_str l, v.vkey, l) else None) v.vout)
+    c.c_verts in
+  L.map (fun (_, _, k, l) -> (k, l)) (L.sort (fun (a, b, _, _) (a', b', _, _) -> compare (a, b) (a', b')) es)
+
+let raw_str (c : cpx) : string =
+  if not (cpx_is_completely_delooped c) then "P"
+  else
+    try
+      let parts = L.concat_map (fun i ->
+        let vs = L.filter (fun v -> cpx_rank { c with c_verts = [v] } i = nat_of_int 1) (sorted_verts c) in
+        L.map (fun v ->
+          match cpx_eval_edges c v with
+          | None -> raise Panic
+          | Some es ->
+              let ts = L.filter_map (fun (l, r) -> if string_of_z r = "0" then None else Some (key_str l ^ "=" ^ string_of_z r)) es in
+              Printf.sprintf "%s:%s->%s" (string_of_z i) (key_str v.vkey) (String.concat "," (L.sort compare ts))) vs)
+        (cpx_h_range c) in
+      String.concat ";" parts
+    with Panic -> "P"
+
+let run_tc (body : string) : string =
+  let cur : cpx option ref = ref None and other : cpx option ref = ref None in
+  let out = ref [] in
+  let push s = out := s :: !out in
+  let zint s = (try z_of_string (string_of_int (int_of_string s)) with _ -> raise Bad) in
+  let nint s = (try let i = int_of_string s in if i < 0 then raise Bad else i with _ -> raise Bad) in
+  let run_op (op : string) : unit =
+    let op = String.trim op in
+    let (name, rest) = match String.index_opt op ' ' with
+      | Some i -> (String.sub op 0 i, String.sub op (i + 1) (String.length op - i - 1)) | None -> (op, "") in
+    let w = split_ws rest in
+    match name with
+    | "I" ->
+        (match w with
+         | [h; t; i0; j0; bp] ->
+             let h = zint h and t = zint t and i0 = zint i0 and j0 = zint j0 in
+             let bp = if bp = "-" then None else Some (nat_of_int (nint bp)) in
+             let c = cpx_init h t (i0, j0) bp in
+             push ("I=" ^ tc_str c); cur := Some c
+         | _ -> raise Bad)
+    | "SW" ->
+        let t = !cur in cur := !other; other := t;
+        push ("sw=" ^ (match !cur with Some c -> tc_str c | None -> "-"))
+    | "CO" ->
+        (match !cur, !other with
+         | Some c, Some o ->
+             other := None;
+             let r = need_p (cpx_connect c o) in
+             cur := Some r; push ("co=" ^ tc_str r)
+         | _ -> raise Bad)
+    | _ ->
+        let c = (match !cur with Some c -> c | None -> raise Bad) in
+        let deloop k r =
+          let (c', u) = need_p (cpx_deloop c k r) in
+          cur := Some c';
+          push (Printf.sprintf "dl=%s,%s upd=%s %s" (key_str k) (string_of_nat r) (String.concat "," (L.map key_str u)) (tc_str c')) in
+        let eliminate k l =
+          let c' = need_p (cpx_eliminate c k l) in
+          cur := Some c';
+          push (Printf.sprintf "el=%s>%s %s" (key_str k) (key_str l) (tc_str c')) in
+        (match name with
+         | "X" ->
+             let x = parse_crossing w in
+             let c' = need_p (cpx_append c x) in
+             cur := Some c'; push ("x=" ^ tc_str c')
+         | "DL" -> (match choose_loop c (String.trim rest = "1") with None -> push "dl=-" | Some (k, r) -> deloop k r)
+         | "DX" -> (match w with [k; r] -> let k = parse_key k in deloop k (nat_of_int (nint r)) | _ -> raise Bad)
+         | "DLA" ->
+             let b = (String.trim rest = "1") in
+             let steps = ref [] in
+             let c = ref c in
+             (try
+                for _ = 1 to 500 do
+                  match choose_loop !c b with
+                  | None -> raise Exit
+                  | Some (k, r) ->
+                      (match cpx_deloop !c k r with
+                       | None -> push ("dla=" ^ String.concat ";" (L.rev !steps)); raise Panic
+                       | Some (c', _) -> c := c'; steps := (key_str k ^ "," ^ string_of_nat r) :: !steps)
+                done
+              with Exit -> ());
+             cur := Some !c;
+             push (Printf.sprintf "dla=%s %s" (String.concat ";" (L.rev !steps)) (tc_str !c))
+         | "EL" ->
+             let n = nint (String.trim rest) in
+             (match inv_edges c with
+              | [] -> push "el=-"
+              | es -> let (k, l) = L.nth es (n mod L.length es) in eliminate k l)
+         | "EX" -> (match w with [k; l] -> let k = parse_key k in let l = parse_key l in eliminate k l | _ -> raise Bad)
+         | "ELA" ->
+             let s = nint (String.trim rest) in
+             let steps = ref [] in
+             let c = ref c in
+             (try
+                for i = 0 to 499 do
+                  match inv_edges !c with
+                  | [] -> raise Exit
+                  | es ->
+                      let (k, l) = L.nth es ((s + i) mod L.length es) in
+                      (match cpx_eliminate !c k l with
+                       | None -> push ("ela=" ^ String.concat ";" (L.rev !steps)); raise Panic
+                       | Some c' -> c := c'; steps := (key_str k ^ ">" ^ key_str l) :: !steps)
+                done
+              with Exit -> ());
+             cur := Some !c;
+             push (Printf.sprintf "ela=%s %s" (String.concat ";" (L.rev !steps)) (tc_str !c))
+         | "RV" ->
+             (match w with
+              | [k] ->
+                  let k = parse_key k in
+                  let (vs, _) = need_p (remove_vertex c.c_verts k) in
+                  let c' = set_verts c vs in
+                  cur := Some c'; push ("rv=" ^ tc_str c')
+              | _ -> raise Bad)
+         | "SH" ->
+             (match w with
+              | [i; j] -> let c' = { c with c_shift = (zint i, zint j) } in cur := Some c'; push ("sh=" ^ tc_str c')
+              | _ -> raise Bad)
+         | "EV" ->
+             let parts = L.concat_map (fun v ->
+               let outs = L.sort (fun (a, _) (b, _) -> compare (key_str a) (key_str b)) v.vout in
+               L.map (fun (l, f) -> Printf.sprintf "%s>%s=%s" (key_str v.vkey) (key_str l) (zopt (lc_eval c.c_h c.c_t f))) outs)
+               (sorted_verts c) in
+             push ("ev=" ^ String.concat ";" parts)
+         | "RAW" -> push ("raw=" ^ raw_str c)
+         | _ -> raise Bad) in
+  (try
+     L.iter (fun op -> if String.trim op <> "" then run_op op) (split_ops body)
+   with Panic -> push "P" | Bad -> push "BAD-OP");
+  String.concat " | " (L.rev !out)
+
 let handle (line : string) : string =
   let line = String.trim line in
   let (kind, body) =
     match String.index_opt line ' ' with
     | Some i -> (String.sub line 0 i, String.sub line (i + 1) (String.length line - i - 1))
     | None -> (line, "") in
-  try (match kind with "pc" -> run_pc body | "cb" -> run_cb body | "cx" -> run_cx body | "sk" -> run_sk body | _ -> run_script body)
+  try (match kind with "pc" -> run_pc body | "cb" -> run_cb body | "cx" -> run_cx body | "sk" -> run_sk body | "tc" | "tm" -> run_tc body | _ -> run_script body)
   with Bad -> "BAD-CASE"
 
 let () = run_lines handle
